@@ -5,7 +5,7 @@ from __future__ import annotations
 import ast
 from typing import Dict, List, Optional, Set, Tuple
 
-from ..cfg import CFG
+from ..cfg import CFG, normal_compare
 from ..model import Func, own_nodes, unparse
 from ..pipeline import Pipeline
 from ..rows import RowFlow
@@ -75,7 +75,14 @@ def rule_b2(ctx, pl: Pipeline, rule_id: str = "C06-B2") -> None:
             # element must mention the loop variable on the branch taken when data_name is None
             elt = v.elt
             if isinstance(elt, ast.IfExp):
-                branch = elt.orelse if "is not None" in unparse(elt.test) else elt.body
+                # the branch evaluated when the data name is None (the pipeline passes data_name=None)
+                nc = normal_compare(elt.test, True)
+                if nc is not None and isinstance(nc[2], ast.Constant) and nc[2].value is None and nc[1] in ("is not", "!="):
+                    branch = elt.orelse
+                elif nc is not None and isinstance(nc[2], ast.Constant) and nc[2].value is None and nc[1] in ("is", "=="):
+                    branch = elt.body
+                else:
+                    branch = elt  # both branches must mention the position
             else:
                 branch = elt
             positional = g.target.id in names_in(branch)
